@@ -11,9 +11,11 @@
   theorem carries the hypothesis `iteration s < 255`, and `stamp_reachable_le` shows that no
   stamp built by `initial`/`increment_iteration` has an iteration above 200.
 
-  The body language of the model is monotone, so no *program* of the model diverges; the
-  non-vacuity example for `panic tooManyIterations` therefore drives the loop with an
-  oscillating fetch function (`flipRead`), which is what `c15_bounded` quantifies over.
+  The body language of the model is monotone, so no gate-free *program* of the model diverges
+  (`c12_terminates`; with the value-controlled `gate` termination is open, see `Props/C12.lean`,
+  and `c15_bounded` — which quantifies over every body, gates included, and every fetch
+  function — is what bounds the loop there); the non-vacuity example for
+  `panic tooManyIterations` drives the loop with an oscillating fetch function (`flipRead`).
 -/
 import SalsaVerif.Gen.Stamp
 import SalsaVerif.Model.Cycle
@@ -129,18 +131,18 @@ example : incrN 201 (IterationStamp.initial 3) = none := by decide
     Structural recursion on `fuel = 201 − iteration`; stated with the literal `201 = 200 + 1`
     so that an edit of `MAX_ITERATIONS` breaks the proof. -/
 theorem c15_bounded (P : Prog) (env : Nat → Nat) (read : Nat → St → Res Fetched) (j : Nat) :
-    ∀ (fuel stamp : Nat) (outer : Bool) (s : St), stamp < 2^16 →
+    ∀ (fuel stamp : Nat) (s : St), stamp < 2^16 →
       IterationStamp.iteration stamp ≤ 200 →
       fuel + IterationStamp.iteration stamp = 201 →
-      (∀ extra, executeMaybeIterate P env read j outer (fuel + extra) stamp s
-                = executeMaybeIterate P env read j outer fuel stamp s) ∧
-      (∀ err, executeMaybeIterate P env read j outer fuel stamp s = .error err →
+      (∀ extra, executeMaybeIterate P env read j (fuel + extra) stamp s
+                = executeMaybeIterate P env read j fuel stamp s) ∧
+      (∀ err, executeMaybeIterate P env read j fuel stamp s = .error err →
         err.cls = .tooManyIterations ∨ ∃ c s0, read c s0 = .error err) := by
   intro fuel
   induction fuel with
-  | zero => intro stamp outer s _ h1 h2; omega
+  | zero => intro stamp s _ h1 h2; omega
   | succ fuel ih =>
-    intro stamp outer s hs hit hsum
+    intro stamp s hs hit hsum
     have hrec : ∀ stamp', IterationStamp.increment_iteration stamp = some stamp' →
         stamp' < 2^16 ∧ IterationStamp.iteration stamp' ≤ 200 ∧
         fuel + IterationStamp.iteration stamp' = 201 := by
@@ -169,7 +171,7 @@ theorem c15_bounded (P : Prog) (env : Nat → Nat) (read : Nat → St → Res Fe
               | none => rfl
               | some stamp' =>
                 obtain ⟨a, b, c⟩ := hrec stamp' hinc
-                exact (ih stamp' true _ a b c).1 extra
+                exact (ih stamp' _ a b c).1 extra
     · intro err h
       rw [executeMaybeIterate] at h
       cases hev : evalM env read (P.node j).body s with
@@ -201,16 +203,16 @@ theorem c15_bounded (P : Prog) (env : Nat → Nat) (read : Nat → St → Res Fe
               | some stamp' =>
                 rw [hinc] at h
                 obtain ⟨a, b, c⟩ := hrec stamp' hinc
-                exact (ih stamp' true _ a b c).2 err h
+                exact (ih stamp' _ a b c).2 err h
 
 /-- the loop as `execute` starts it: fuel `loopFuel = MAX_ITERATIONS + 1 = 201`, stamp
     `initial 0`.  It never reports `outOfFuel` by itself. -/
 theorem c15_bounded_execute (P : Prog) (env : Nat → Nat) (read : Nat → St → Res Fetched)
-    (j : Nat) (outer : Bool) (s : St) (err : Panic)
-    (h : executeMaybeIterate P env read j outer loopFuel (IterationStamp.initial 0) s
+    (j : Nat) (s : St) (err : Panic)
+    (h : executeMaybeIterate P env read j loopFuel (IterationStamp.initial 0) s
       = .error err) :
     err.cls = .tooManyIterations ∨ ∃ c s0, read c s0 = .error err :=
-  (c15_bounded P env read j 201 (IterationStamp.initial 0) outer s (by decide) (by decide)
+  (c15_bounded P env read j 201 (IterationStamp.initial 0) s (by decide) (by decide)
     (by decide)).2 err h
 
 example : loopFuel = 201 := by decide
@@ -224,14 +226,14 @@ def flipRead : Nat → St → Res Fetched := fun c s =>
 def selfP : Prog := ⟨[⟨.fixpoint false, .call 0⟩]⟩
 
 set_option maxRecDepth 20000 in
-example : errOf (executeMaybeIterate selfP (fun _ => 0) flipRead 0 false loopFuel
+example : errOf (executeMaybeIterate selfP (fun _ => 0) flipRead 0 loopFuel
     (IterationStamp.initial 0) ⟨[0], [], [], [], [], 0⟩) = some ⟨.tooManyIterations, [0]⟩ := by
   decide
 
 /- … while with one unit of fuel less the loop would have stopped for lack of fuel: the
     bound `201` is tight. -/
 set_option maxRecDepth 20000 in
-example : errOf (executeMaybeIterate selfP (fun _ => 0) flipRead 0 false 200
+example : errOf (executeMaybeIterate selfP (fun _ => 0) flipRead 0 200
     (IterationStamp.initial 0) ⟨[0], [], [], [], [], 0⟩) = some ⟨.outOfFuel, [0]⟩ := by
   decide
 
